@@ -4,11 +4,21 @@
 package main
 
 import (
+	"bytes"
+	"encoding/json"
 	"fmt"
 	"os"
+	"os/exec"
+	"path/filepath"
+	"strings"
 )
 
 var commands = map[string]func(*Run){}
+
+// Properties whose inputs can take the whole process down (a panic in a server goroutine cannot
+// be recovered): the work runs in a child process; if it dies, the parent reports the crash with
+// the last datagram delivered as the replay.
+var isolated = map[string]bool{"C01": true, "C08": true, "C05": true, "C06": true, "C09": true, "C10": true, "C11": true, "C19": true}
 
 func main() {
 	if len(os.Args) < 2 {
@@ -20,7 +30,52 @@ func main() {
 		fmt.Fprintf(os.Stderr, "unknown property %q\n", os.Args[1])
 		os.Exit(2)
 	}
+	if isolated[os.Args[1]] && os.Getenv("VERIF_CHILD") == "" {
+		runIsolated()
+		return
+	}
 	r := newRun(os.Args[1], os.Args[2:])
 	cmd(r)
 	r.finish()
+}
+
+func runIsolated() {
+	r := newRun(os.Args[1], os.Args[2:])
+	r.opsF.Close()
+	r.implF.Close()
+	c := exec.Command(os.Args[0], os.Args[1:]...)
+	c.Env = append(os.Environ(), "VERIF_CHILD=1")
+	var stderr bytes.Buffer
+	c.Stderr = &stderr
+	c.Stdout = os.Stdout
+	err := c.Run()
+	if err == nil {
+		return
+	}
+	// the child died: synthesize the result
+	last, _ := os.ReadFile(filepath.Join(r.OutDir, "last-input.txt"))
+	msg := stderr.String()
+	head := msg
+	if i := strings.Index(msg, "\n\n"); i > 0 {
+		head = msg[:i]
+	}
+	if len(head) > 600 {
+		head = head[:600]
+	}
+	what := "process crashed: " + strings.TrimSpace(head)
+	res := Result{Property: r.Prop, Seed: r.Seed, Tier: r.Tier, Evaluations: 1, DistinctNontrivial: 1,
+		Rule: "child process died", Samples: []interface{}{string(last)}, Histogram: map[string]int{},
+		Violations: []Violation{{What: what, Replay: map[string]string{"last_datagram": string(last), "stderr_tail": tail(msg, 3000)}}}}
+	b, _ := json.MarshalIndent(res, "", " ")
+	os.WriteFile(filepath.Join(r.OutDir, "result.json"), b, 0o644)
+	// truncated op streams are useless for the diff
+	os.WriteFile(filepath.Join(r.OutDir, "ops.txt"), nil, 0o644)
+	os.WriteFile(filepath.Join(r.OutDir, "impl.txt"), nil, 0o644)
+}
+
+func tail(s string, n int) string {
+	if len(s) > n {
+		return s[len(s)-n:]
+	}
+	return s
 }
